@@ -12,6 +12,9 @@
 From EG Require Import Base.Prelude Base.Casts Model.Geometry Model.Rrect Model.Rawdata Model.Imageraw Model.Fontmodel.
 From EG Require Import Gen.SrcGeometry Gen.SrcImage Gen.SrcRawIter Gen.SrcImagePixels Gen.SrcFont Gen.SrcText Gen.SrcGlyph Gen.SrcCircle Gen.SrcRrect Gen.SrcRrect2 Gen.SrcImageDraw.
 From EG Require Import Proofs.SrcGeometry Proofs.SrcImagePixels Proofs.SrcImageDraw.
+(* Model/Imageraw.v fixes usize at 64 bit; the generated definitions that depend on the width of usize (nth: saturating_add)
+   are taken at that width (Casts.usize64_w) *)
+#[local] Existing Instance Casts.usize64_w.
 
 Theorem C09_src_pixel_is_model : forall img p,
   0 <= sw (ir_size img) <= i32_max -> 0 <= sh (ir_size img) <= i32_max -> 0 < ir_bpp img <= u32_max ->
